@@ -6,7 +6,10 @@ let iz = function Z0 -> 0 | Zpos p -> ipos p | Zneg p -> - (ipos p)
 let rec posi i = if i = 1 then XH else if i land 1 = 0 then XO (posi (i lsr 1)) else XI (posi (i lsr 1))
 let zi i = if i = 0 then Z0 else if i > 0 then Zpos (posi i) else Zneg (posi (- i))
 let rec nati i = if i <= 0 then O else S (nati (i - 1))
-let ios s = try int_of_string s with _ -> failwith ("int: " ^ s)
+(* values outside OCaml's 63-bit ints (a broken implementation may report them) are clamped; the model rejects them anyway *)
+let ios s = try int_of_string s with _ ->
+  if String.length s > 1 && s.[0] = '-' && String.length s > 15 then min_int / 2
+  else if String.length s > 15 then max_int / 2 else failwith ("int: " ^ s)
 
 let cfgtab : (int, cfg) Hashtbl.t = Hashtbl.create 32     (* current values (SetBackoffFnCfg) *)
 let cfg0 : (int, cfg) Hashtbl.t = Hashtbl.create 32       (* as read from the code at start *)
@@ -59,7 +62,7 @@ let () =
     | "X" :: b :: c :: n :: "=>" :: v :: _ ->
         incr nx;
         let m = iz (expo (zi (ios b)) (zi (ios c)) (zi (ios n))) in
-        if m <> ios v then begin incr mism; if !mism <= 30 then Printf.printf "MISMATCH\t-1\t0\texpo model=%d\t%s\n" m line end
+        if string_of_int m <> v then begin incr mism; if !mism <= 30 then Printf.printf "MISMATCH\t-1\t0\texpo model=%d\t%s\n" m line end
     | "CFG" :: id :: name :: base :: cap :: jit :: err :: nm :: _ ->
         Hashtbl.replace cfgname (ios id) nm;
         Hashtbl.replace cfg0 (ios id) { c_id = zi (ios id); c_name = zi (ios name); c_base = zi (ios base); c_cap = zi (ios cap); c_jit = zi (ios jit); c_err = zi (ios err) }
